@@ -367,4 +367,6 @@ def rule_ods_cell_texts(ctx):
     rule_cell_texts(ctx, "O3.6")
 
 
-RULES = [rule_template_integrity, rule_validated, rule_guard_state, rule_characters, rule_ods_cell_texts]
+from .common import rule_module_state  # noqa: E402
+
+RULES = [rule_template_integrity, rule_validated, rule_guard_state, rule_characters, rule_ods_cell_texts, rule_module_state]
